@@ -277,7 +277,7 @@ func c31RunEgress(p c31EPlan) (res c31EResult) {
 	// ledger: only accepted packets are remembered (a sustained overload offers millions)
 	var offMu sync.Mutex
 	accepted := map[uint64]c31EAcc{} // seq -> body size, time of acceptance
-	var pending c31EOffer        // the offer in flight: may already arrive upstream before it is booked
+	var pending c31EOffer            // the offer in flight: may already arrive upstream before it is booked
 	var nOffers uint64
 	sizeOf := func(seq uint64) (int, bool) {
 		offMu.Lock()
